@@ -294,6 +294,13 @@ func runCheck(o *options) int {
 	}
 	tGen := time.Since(t0).Seconds() - tLoad
 
+	// obligations recorded as known (unrepaired) findings are expected to fail: no long retry
+	knownObl = map[string]bool{}
+	for _, k := range loadKnown(o.verif) {
+		if k.Status == "known" && k.Property == o.prop {
+			knownObl[oblStem(k.Obligation)] = true
+		}
+	}
 	solveAll(units, work, o.tier, o.seed, o.workers)
 	tSolve := time.Since(t0).Seconds() - tLoad - tGen
 
@@ -523,6 +530,7 @@ func report(o *options, p *Prog, db *ContractDB, units []*Unit, known []KnownFin
 }
 
 var houdiniNotes []string
+var knownObl map[string]bool
 
 func autoKind(k string) bool {
 	switch k {
